@@ -268,7 +268,13 @@ pub fn generate_project(seed: u64, index: u64) -> Project {
         cfg.push_str(&format!("namespaces = [{}]\n", n.iter().map(|l| format!("\"{l}\"")).collect::<Vec<_>>().join(", ")));
     }
     // only read by the client-side dynamic-loading configuration of the code generator
-    cfg.push_str(if namespaces.is_some() { "translations-path = \"i18n/{namespace}/{locale}.json\"\n" } else { "translations-path = \"i18n/{locale}.json\"\n" });
+    let tp: &str = if namespaces.is_some() {
+        *rng.pick(&["i18n/{namespace}/{locale}.json", "{namespace}/{locale}.json", "données/{namespace}/{locale}.json", "api/{locale}/{namespace}.json", "{locale}-{namespace}"])
+    } else {
+        // `{namespace}` is legal without namespaces: it is replaced by nothing
+        *rng.pick(&["i18n/{locale}.json", "{namespace}/{locale}.json", "donné{namespace}/{locale}.json", "{locale}.json", "i18n/{namespace}{locale}.json", "{locale}{namespace}"])
+    };
+    cfg.push_str(&format!("translations-path = \"{tp}\"\n"));
     if let Some((a, b)) = &inherits {
         cfg.push_str(&format!("inherits = {{ {a} = \"{b}\" }}\n"));
     }
